@@ -60,6 +60,13 @@ func (s *Shard) Put(obj *object.Object, objBin []byte) error {
 	if !m.NoMetabase() {
 		diff, metaErr := s.metaBase.PutCounted(obj)
 		if metaErr != nil {
+			// The data written above is dropped, unless the metabase knows
+			// the object already: a failed repeated put must not take away
+			// the data of the stored object.
+			if known, _ := s.metaBase.Exists(addr, true); known {
+				return fmt.Errorf("could not put object to metabase: %w", metaErr)
+			}
+
 			if cachedPut {
 				var err = s.writeCache.Delete(addr)
 				if err != nil && !errors.Is(err, apistatus.ErrObjectNotFound) {
